@@ -73,12 +73,8 @@ Lemma embedA_const_mul (a : arr S) orr occ v r c :
   (embedA (aconst (nr a) (nc a) v) orr occ r c * embedA a orr occ r c)%K = (v * embedA a orr occ r c)%K.
 Proof. unfold embedA, aconst. cbn [nr nc get]. destr_if; ring. Qed.
 
-Lemma size1_shape (d : fdata S) : (match d with D0 _ => True | D2 a => 0 < nr a /\ 0 < nc a end) ->
-  (dsize d =? 1) = true -> dshape d = (1, 1).
-Proof. destruct d as [v|a]; cbn; intros H E; [reflexivity|]. f_equal; nia. Qed.
-
 Theorem mul_array_embed (a b : field S) r c : fvalid a -> fvalid b ->
-  (dsize (fd a) =? 1) && (dsize (fd b) =? 1) = false ->
+  is0d (fd a) && is0d (fd b) = false ->
   embed_opt (mul_array a b) r c = (embed_const a r c * embed_const b r c)%K.
 Proof.
   intros Ha Hb Hs. unfold mul_array, embed_const.
@@ -88,51 +84,51 @@ Proof.
   { unfold fvalid in Hb. destruct (fd b); cbn; lia. }
   assert (Sa : dshape (fd a) = (nr (toarr (fd a)), nc (toarr (fd a)))) by (destruct (fd a); reflexivity).
   assert (Sb : dshape (fd b) = (nr (toarr (fd b)), nc (toarr (fd b)))) by (destruct (fd b); reflexivity).
-  destruct (dsize (fd a) =? 1) eqn:Ea; destruct (dsize (fd b) =? 1) eqn:Eb; try discriminate; cbn [andb].
-  - (* a has one element, b does not: the shapes differ *)
+  destruct (is0d (fd a)) eqn:Ea; destruct (is0d (fd b)) eqn:Eb; try discriminate; cbn [andb].
+  - (* a is 0-d, b is not: the shapes differ *)
     assert (Hd : same_shape (fd a) (fd b) = false).
-    { pose proof (size1_shape _ Ha Ea) as H1. unfold fvalid in Hb.
-      destruct (fd a) as [va|aa], (fd b) as [vb|bb]; cbn in *; try reflexivity; try discriminate.
-      injection H1 as -> ->. destruct Hb. nia. }
+    { destruct (fd a) as [va|aa], (fd b) as [vb|bb]; cbn in *; try reflexivity; discriminate. }
     rewrite Hd. cbn [negb andb]. rewrite Sb. cbn [fst snd].
     rewrite mul_core_embed by (unfold aconst; cbn [nr nc]; lia).
     rewrite embedA_const_mul. now rewrite embedA_toarr.
-  - (* b has one element, a does not *)
+  - (* b is 0-d, a is not *)
     assert (Hd : same_shape (fd a) (fd b) = false).
-    { pose proof (size1_shape _ Hb Eb) as H1. unfold fvalid in Ha.
-      destruct (fd a) as [va|aa], (fd b) as [vb|bb]; cbn in *; try reflexivity; try discriminate.
-      injection H1 as -> ->. destruct Ha. nia. }
+    { destruct (fd a) as [va|aa], (fd b) as [vb|bb]; cbn in *; try reflexivity; discriminate. }
     rewrite Hd. cbn [negb andb].
     rewrite mul_core_embed by (unfold aconst; cbn [nr nc]; lia).
     transitivity ((embedA (aconst (nr (toarr (fd a))) (nc (toarr (fd a))) (dget (fd b) 0 0)) (offr a) (offc a) r c
                    * embedA (toarr (fd a)) (offr a) (offc a) r c)%K); [ring|].
     rewrite embedA_const_mul. rewrite embedA_toarr. ring.
-  - (* neither has one element: no broadcasting takes place *)
+  - (* neither is 0-d (1x1 arrays included): no broadcasting takes place *)
     rewrite !Bool.andb_false_r. rewrite mul_core_embed by lia. now rewrite !embedA_toarr.
 Qed.
 
-(* both operands one-element: _mul_scalar *)
-Theorem mul_scalar_equal_offsets (a b : field S) : fvalid a -> fvalid b ->
-  (dsize (fd a) =? 1) = true -> (dsize (fd b) =? 1) = true -> offr a = offr b -> offc a = offc b ->
-  exists p, fmul a b = Some p /\ dsize (fd p) = 1 /\
+(* both operands 0-d: _mul_scalar *)
+Theorem mul_scalar_equal_offsets (a b : field S) :
+  is0d (fd a) = true -> is0d (fd b) = true -> offr a = offr b -> offc a = offc b ->
+  exists p, fmul a b = Some p /\ is0d (fd p) = true /\
             dget (fd p) 0 0 = (dget (fd a) 0 0 * dget (fd b) 0 0)%K /\ offr p = offr a /\ offc p = offc a.
 Proof.
-  intros Ha Hb Ea Eb Hr Hc. unfold fmul, mul_scalar. rewrite Ea, Eb. cbn [andb].
+  intros Ea Eb Hr Hc. unfold fmul, mul_scalar. rewrite Ea, Eb. cbn [andb].
   replace ((offr a =? offr b) && (offc a =? offc b)) with true by lia.
-  eexists; split; [reflexivity|]. destruct (fd a), (fd b); cbn; auto.
+  eexists; split; [reflexivity|]. cbn. auto.
 Qed.
 (* the finding recorded as C06-scalar-scalar-offsets: with unequal offsets the product is empty,
    although both operands are infinite constants in the property's reading *)
 Theorem mul_scalar_unequal_offsets_empty (a b : field S) :
-  (dsize (fd a) =? 1) = true -> (dsize (fd b) =? 1) = true -> (offr a <> offr b \/ offc a <> offc b) ->
+  is0d (fd a) = true -> is0d (fd b) = true -> (offr a <> offr b \/ offc a <> offc b) ->
   fmul a b = None.
 Proof. intros Ea Eb H. unfold fmul, mul_scalar. rewrite Ea, Eb. cbn [andb].
   replace ((offr a =? offr b) && (offc a =? offc b)) with false by lia. reflexivity. Qed.
 
 Theorem fmul_embed (a b : field S) r c : fvalid a -> fvalid b ->
-  (dsize (fd a) =? 1) && (dsize (fd b) =? 1) = false ->
+  is0d (fd a) && is0d (fd b) = false ->
   embed_opt (fmul a b) r c = (embed_const a r c * embed_const b r c)%K.
 Proof. intros Ha Hb Hs. unfold fmul. rewrite Hs. now apply mul_array_embed. Qed.
+
+(* a sized operand (1x1 arrays included) is its own embedding; only 0-d data is a constant *)
+Lemma embed_const_sized (f : field S) r c : is0d (fd f) = false -> embed_const f r c = embed f r c.
+Proof. intros H. unfold embed_const. now rewrite H. Qed.
 
 (* ------------------------------------------------------------------ boundary *)
 Lemma boundary_fold (fs : list (field S)) : boundary fs = fold_left bstep fs (maxsize, - maxsize, maxsize, - maxsize).
